@@ -19,7 +19,7 @@ def scenarios(tp):
     if tp in ("tcp", "btcp"):
         s.append("release")
     if tp in TLS_BASED:
-        s += ["mute", "garbage", "release"]
+        s += ["mute", "garbage", "release", "garbage2"]
     return s
 
 
@@ -67,7 +67,7 @@ def gen_scripts(rnd, nseeds, xid0=0):
     xid = xid0
     for tp in TPS:
         for sc in scenarios(tp):
-            n = nseeds if sc in ("normal", "mute", "garbage", "ctlflood") else max(1, nseeds // 3)
+            n = nseeds if sc in ("normal", "mute", "garbage", "ctlflood", "garbage2") else max(1, nseeds // 3)
             for _ in range(n):
                 xid += 1
                 scripts.append("X %d %s %s %d" % (xid, tp, sc, rnd.randint(1, 10 ** 6)))
